@@ -350,7 +350,8 @@ func (pkgGen *HttpPackageGenerator) updateRegister(pkg, rDir, pkgName string) er
 		return fmt.Errorf("read register '%s' failed, err: %v", registerPath, err.Error())
 	}
 
-	if !bytes.Contains(file, []byte(register.DepPkg)) {
+	// look for the quoted import path: a bare path is also found inside a longer one
+	if !bytes.Contains(file, []byte("\""+register.DepPkg+"\"")) {
 		file, err = util.AddImport(registerPath, register.DepPkgAlias, register.DepPkg)
 		if err != nil {
 			return err
